@@ -97,7 +97,7 @@ def engine_run(ops, table):
         time.monotonic = real
 
 
-def handshake(drops, snapshot="inYT-all off-2020-10-23 18_00_45.snapshot", max_iter=6000):
+def handshake(drops, snapshot="inYT-all off-2020-10-23 18_00_45.snapshot", max_iter=6000, lost_segments=()):
     """The REAL blocking GeckoSpa handshake against the in-process simulator, the engine thread stepped deterministically.
     drops: {verb: number of first attempts lost}; returns (connected, block equal, iterations, transmissions per verb)."""
     import os
@@ -115,6 +115,7 @@ def handshake(drops, snapshot="inYT-all off-2020-10-23 18_00_45.snapshot", max_i
             spa._socket = MockSocket()
             spa.start_connect()
         seen = {}
+        answered = {}
         n = 0
         left = dict(drops)
         for n in range(max_iter):
@@ -128,7 +129,12 @@ def handshake(drops, snapshot="inYT-all off-2020-10-23 18_00_45.snapshot", max_i
                     if left.get(verb, 0) > 0:
                         left[verb] -= 1
                         continue
-                    for r in vloop.sim_replies(sim, data, ("10.0.0.9", 40001)):
+                    reps = list(vloop.sim_replies(sim, data, ("10.0.0.9", 40001)))
+                    if verb == "STATU" and lost_segments and not answered.get("STATU"):
+                        # the first answer to the status request loses some of its segments on the way (the rest, the last one included, arrive)
+                        reps = [r for j, r in enumerate(reps) if j not in lost_segments]
+                    answered[verb] = answered.get(verb, 0) + 1
+                    for r in reps:
                         spa._socket.inbox.append((r, vloop.SIMADDR))
                 spa._process_received_data()
                 for h in spa._receive_handlers:
@@ -276,6 +282,15 @@ def run(ctx):
         for s, k in drops.items():
             if seen.get(s, 0) != k + 1 and s != "STATU":
                 ctx.fail("handshake:retransmissions", "%s transmitted %d times with %d attempts lost" % (s, seen.get(s, 0), k), {"drops": drops, "transmissions": seen})
+    # segments of the first status answer lost on the way (first / middle / several; the last one arrives): the block must still end up identical
+    for lost in ([(0,), (3,), (1, 2), (5, 9, 20)] + ([(25,), (0, 26)] if ctx.thorough else [])):
+        ok, same, iters, seen = handshake({}, lost_segments=lost)
+        ctx.count("handshakes_with_lost_segments")
+        ctx.case(("handshake_lost_segments", lost), nontrivial=True)
+        meta.append({"handshake_lost_segments": lost, "connected": ok, "block_equal": same, "transmissions": seen})
+        if not (ok and same):
+            ctx.fail("handshake:lost_segments", "blocking handshake did not end with an identical block after segments %r of the first status answer were lost (connected=%s, identical=%s)" % (lost, ok, same),
+                     {"lost_segments_of_first_answer": lost, "connected": ok, "block_equal": same, "transmissions": seen})
     # exhausting the budget: 11 lost attempts of the first step -> the request is removed, the handshake cannot complete
     ok, same, iters, seen = handshake({"AVERS": 11}, max_iter=3000)
     meta.append({"handshake_exhausted": seen, "connected": ok})
